@@ -2,3 +2,5 @@ pub mod c01;
 pub mod c18;
 pub mod c19;
 pub mod c09;
+pub mod c15;
+pub mod c17;
